@@ -43,7 +43,7 @@ think about helper functions, call sites, ordering, boundary conditions, paramet
 
 Also write a demonstration: a Go test file placed in the appropriate package directory of the worktree, named
 zz_seed_demo_test.go, with a test `TestSeedDemo` that FAILS with your change applied and PASSES on the unchanged code.
-Verify both: run it with the change (must fail); then save your change with `git diff -- . ':!*_test.go' ':!_seed' > _seed/patch.diff`,
+Verify both: run it with the change (must fail); then save your change with `git diff -- . ':(exclude)*_test.go' ':(exclude)_seed' > _seed/patch.diff`,
 revert it with `git apply -R _seed/patch.diff`, run the demo again (must pass), and re-apply with `git apply _seed/patch.diff`.
 Do NOT use `git stash` (the stash is shared with other worktrees).
 
